@@ -2,7 +2,8 @@
 // A heap block is identified by `id` and was requested with room for `elems` elements of T at T's alignment (by C01 a
 // GenericArray<T, N> has exactly the layout of N elements of T).  Box::from_raw frees - eventually - with the layout of
 // the pointee type it is given, so that layout must be the one the block was requested with (size AND alignment).
-pub struct Block { pub id: int, pub elems: nat }
+// `content`: the values of the initialised elements the block holds, in order (ids of abstract values)
+pub struct Block { pub id: int, pub elems: nat, pub content: Seq<int> }
 pub struct BoxArr { pub block: Block }                    // Box<GenericArray<T, N>>: block.elems == N
 pub struct BoxSlice { pub block: Block, pub len: usize }  // Box<[T]>: block.elems == len
 pub struct VecT { pub block: Block, pub len: usize, pub cap: usize }   // Vec<T>: block.elems == cap
@@ -19,7 +20,7 @@ impl VecT {
     #[verifier::external_body]
     pub fn into_boxed_slice(self) -> (r: BoxSlice)
         requires self.wf(),
-        ensures r.wf(), r.len == self.len, self.len == self.cap ==> r.block == self.block,
+        ensures r.wf(), r.len == self.len, self.len == self.cap ==> r.block == self.block, r.block.content == self.block.content,
     { unimplemented!() }
 }
 // Box::into_raw: the caller now owns the block
